@@ -175,6 +175,9 @@ for i in range(80 if TIER == "quick" else 500):
             uri = "/" + rtext().replace(" ", ""); get.set_option("uri", uri); gt.append(f'set uri "{uri}";')
             cl = cp.HttpOptionsBlock(); ct = []
             hs = [(rtext(), rtext()) for _ in range(rng.randrange(0, 3))]
+            if hs and rng.random() < 0.4:
+                # the same header name stated again (another value), after the others: pairs are a sequence, not a mapping
+                hs.append((hs[0][0], rtext()))
             if hs:
                 cl._pair("header", hs); ct += [f'header "{a}" "{b}";' for a, b in hs]
             st, tt = rand_transform()
@@ -194,6 +197,8 @@ for i in range(80 if TIER == "quick" else 500):
                 v = rtext(); stg.set_option(k, v); stt.append(f'set {k} "{v}";')
             if rng.random() < 0.5:
                 tb = cp.StageTransformBlock(); pairs = [(rtext(), rtext())]
+                if rng.random() < 0.5:
+                    pairs += [(rtext(), rtext()), (pairs[0][0], rtext())]
                 tb._pair("strrep", pairs); stg.set_config_block("transform_x86", tb)
                 stt.append("transform-x86 { " + " ".join(f'strrep "{a}" "{b}";' for a, b in pairs) + " }")
             if rng.random() < 0.6:
